@@ -168,6 +168,13 @@ MUT_TOKENS = [",", ":", "[", "]", "{", "}", '"', "'", "\\", " ", "\n", "\t", "0"
               '"a":1', "\r", "\x0c", "\x0b"]
 
 
+BAD_HEX4 = ["+041", "-041", " 041", "0x41", "00g1", "004\"", "+0041", "_041", "0_41", "004 ", "00\uff141", "\u0661\u0662\u0663\u0664", "0041".replace("4", "\uff14"),
+            "00 4", "0.41", "1e41"[:4], "\t041", "004", "00", "", "004G", "d83d", "DC00"]
+LENIENT_NUMBERS = ["+1", "1_0", "0x1", "0X1F", "1.", ".1", "1e", "01", "-01", "00", "1E+", "\u0663", "\uff11", "1e1_0", "1__0", "-", "- 1", "1 .5", "inf", "-inf", "nan",
+                   "NaN", "Infinity", "-Infinity", "1f", "1d", "1L", "0b1", "0o7", "1e1.5", "1e+-1", "--1", "+0", "1,5", "1.e1", "1.5.5", "\u22121", "1e\u0663", "-0", "-0.0", "-0e0", "0e0",
+                   "-00", "1e-0", "0.0", "-0E-0"]
+
+
 @st.composite
 def json_case(draw):
     yaml_safe = draw(st.booleans())
@@ -190,6 +197,20 @@ def json_case(draw):
         else:
             end = draw(st.integers(pos, len(doc)))
             doc = doc[:pos] + doc[end:]
+    # leniencies of host-language parsers that RFC 8259 does not share: a malformed tail of a \u escape, a lenient number spelling
+    if draw(st.integers(0, 5)) == 0:
+        esc = [m.start() for m in re.finditer(r"\\u[0-9a-fA-F]{4}", doc)]
+        if esc:
+            at = esc[draw(st.integers(0, len(esc) - 1))]
+            bad = draw(st.sampled_from(BAD_HEX4))
+            doc = doc[:at + 2] + bad + doc[at + 6:]
+            mutated = True
+    if draw(st.integers(0, 5)) == 0:
+        nums = [(m.start(), m.end()) for m in re.finditer(r"(?<![\\\w\"])-?[0-9][0-9.eE+-]*", doc)]
+        if nums:
+            a, b = nums[draw(st.integers(0, len(nums) - 1))]
+            doc = doc[:a] + draw(st.sampled_from(LENIENT_NUMBERS)) + doc[b:]
+            mutated = True
     if draw(st.integers(0, 30)) == 0:
         doc = draw(st.sampled_from(["", " ", "[", "]", "{", "[1,]", "{\"a\":1,}", "[1 2]", "{\"a\" 1}", "{\"a\":1 \"b\":2}",
                                     "{1:2}", "{\"a\":1,\"a\":2}", "{\"a\":{\"b\":1,\"b\":1}}", "1 2", "[1]]", "\"\\ud83d\\ude00\"",
@@ -246,7 +267,7 @@ def check_json(case):
         if not util.is_ok(ry):
             raise Violation("parseyaml-rejects-json", f"std.parseYaml rejected the JSON document {doc[:200]!a}: {ry['err'].get('detail')}")
         goty = util.typed(ry)
-        if not V.same(goty, V.normalize(exp), zero_sign=False):
+        if not V.same(goty, V.normalize(exp), zero_sign=True):
             raise Violation("parseyaml-differs", f"std.parseYaml({doc[:200]!a}) = {V.show(goty)}, parseJson gives {V.show(exp)}")
     nt = (exp is not INVALID and V.depth(exp) >= 2 and "\\" in doc) or (case["mutated"] and exp is not INVALID)
     return {"nontrivial": nt, "labels": labels, "sample": doc[:200]}
